@@ -78,7 +78,7 @@ def run_case(case: Dict[str, Any], ctx) -> None:
         mods = [layer] + pads
         if case.get("tied") and depth > 1:
             mods = [layer] * depth  # the container applies one layer `depth` times; its depth is still len(container)
-        clones = case["seed"] % 5 == 0 and depth > 1 and not (case.get("tied") and depth > 1)
+        clones = case["seed"] % 5 == 0 and depth > 1 and not (case.get("tied") and depth > 1) and fi * fo * k * depth <= 2**21  # (memory)
         if clones:
             # the common way to build a deep stack: clones of ONE template block go into the depth container (the depth tag
             # lands on the copies) ...
